@@ -258,12 +258,18 @@ func WindowFrameSet(partition Partition, expr parser.AnalyticClause) []WindowFra
 		case parser.PRECEDING:
 			if !framePosition.Unbounded.IsEmpty() {
 				idx = 0
+			} else if current < framePosition.Offset {
+				// Every position before the partition is equivalent: stop one before it, however large the offset is.
+				idx = -1
 			} else {
 				idx = current - framePosition.Offset
 			}
 		case parser.FOLLOWING:
 			if !framePosition.Unbounded.IsEmpty() {
 				idx = length - 1
+			} else if length-current <= framePosition.Offset {
+				// Every position after the partition is equivalent (and current + offset may overflow).
+				idx = length
 			} else {
 				idx = current + framePosition.Offset
 			}
